@@ -688,3 +688,33 @@ def intern_returns(ck, F, rule="COVER-style"):
         ck.ob(rule, "%s|return sites" % name, k >= 1 or any(t["dest"]["l"] == 0 for _, t in b.calls() if not place_proj(t["dest"])),
               "Styles::%s: no assignment to the return value found (anchor lost?)" % name, b.file, b.line)
     ck.note("intern_return_values", n)
+
+
+def quote_prefix_style(ck, F, rule="QUOTE-STYLE"):
+    """Typing over a cell decides its quote prefix: in Model::set_user_input every call that writes the cell
+    (Worksheet::set_cell_with_* / Model::set_cell_with_*) receives a style index that went through one of the two
+    quote-prefix normalisers (get_style_with_quote_prefix for `'text`, get_style_without_quote_prefix for everything else).
+    A value written with the cell's previous style keeps a stale quote prefix: the editor then shows `'TRUE` for a boolean and
+    typing that back stores text."""
+    b = ck.need(F.one, "model::Model::set_user_input")
+    n = 0
+    seen = {}
+    for bi, t in b.calls():
+        last = (b.callee_q(t) or "").rsplit("::", 1)[-1]
+        if not last.startswith("set_cell_with_"):
+            continue
+        # the style argument: the last i32 argument of the call
+        styles = [a for a in t["args"] if op_place(a) is not None and b.locals[op_place(a)["l"]] == "i32"]
+        if not styles:
+            continue
+        sr = sources(b, styles[-1])
+        calls = {x[1].rsplit("::", 1)[-1] for x in sr if x[0] == "call"}
+        ok = bool(calls & {"get_style_with_quote_prefix", "get_style_without_quote_prefix"})
+        k = seen[last] = seen.get(last, 0) + 1
+        n += 1
+        f, l = b.loc(bi)
+        ck.ob(rule, "set_user_input|%s#%d style went through a quote-prefix normaliser" % (last, k), ok,
+              "set_user_input writes the cell through %s with a style taken from %s: the quote prefix of the previous content is neither set nor "
+              "removed, so the displayed content of the new value starts with a `'` it does not have" % (last, sorted(calls) or "the cell's current style"),
+              f, l, sample={"call": last, "style_from": sorted(calls)})
+    ck.ob(rule, "set_user_input|cell writes", n >= 5, "expected at least 5 cell-writing calls in set_user_input, found %d" % n, b.file, b.line)
